@@ -32,6 +32,8 @@ def run(ctx):
     rule_b(ctx, cr)
     rule_c(ctx, cr)
     rule_d(ctx, cr)
+    from rules import codegen
+    codegen.check_always_links(ctx, "C19.d", cr)
 
 
 def rule_a(ctx, cr):
